@@ -65,6 +65,7 @@ ObsOf(g) ==
       ent(p) == [u |-> p[1], v |-> p[2], iv |-> g.tl[p]]
       rev(p) == [u |-> p[2], v |-> p[1], iv |-> g.tl[p]]
   IN [ nodes   |-> SetToSeq(g.nodes),
+       attrs   |-> SetToSeq({ <<n, IF n \in DOMAIN g.attr THEN g.attr[n] ELSE 0>> : n \in g.nodes }),
        tl      |-> SetToSeq({ ent(p) : p \in DOMAIN g.tl }),
        tlnb    |-> SetToSeq({ ent(p) : p \in DOMAIN g.tl }
                              \cup (IF g.dir THEN {} ELSE { rev(p) : p \in DOMAIN g.tl })),
